@@ -63,11 +63,13 @@ pub fn check<S: Sim>(prop: &str, tier: Tier, args: &[String]) -> i32 {
         rep.known_hits.len(),
         res.worker_deaths
     );
-    if rep.harness_error {
-        return 2;
-    }
+    // a violation that was confirmed and replayed in fresh processes stands even if another candidate
+    // could not be confirmed
     if rep.violations > 0 {
         return 1;
+    }
+    if rep.harness_error {
+        return 2;
     }
     if !vacuous.is_empty() {
         eprintln!("HARNESS: vacuous run, required probes never fired: {:?}", vacuous);
